@@ -4,12 +4,14 @@ Dispatcher of the `pkg` line protocol over the codec groups. A token no group cl
 `PacketQueue.Read`) can only end with not-enough-bytes.
 -/
 import Dblib.Model.Codec.Common
+import Dblib.Model.Codec.Basic
+import Dblib.Model.Codec.Cursor
 
 namespace Dblib.Codec
 
 /-- the groups: (encLine, decLine) -/
 def groups : List ((String → List String → Option String) × (Nat → Option Bytes → Bytes → Option String)) :=
-  []
+  [(Basic.encLine, Basic.decLine), (Cursor.encLine, Cursor.decLine)]
 
 def firstSome {α : Type} : List (Option α) → Option α
   | [] => none
